@@ -1177,6 +1177,75 @@ pub fn check_c20(case: &Case, h: &History, alts: &[History]) -> Vec<Violation> {
         }
     }
 
+    // ---- a breakpoint leaves the machine alone
+    for (k, s) in segs.iter().enumerate() {
+        if !is_int3(s.code) {
+            continue;
+        }
+        if let Some(nx) = segs.get(k + 1) {
+            let mut a = s.regs;
+            let mut b = nx.regs;
+            a[R_IP] = 0;
+            b[R_IP] = 0;
+            if a != b || !nx.delta.is_empty() {
+                v.push(Violation::new(
+                    "C20:int3_changed_state",
+                    format!(
+                        "registers / flags / memory differ after the breakpoint at instruction #{}: {:04X?} -> {:04X?}, {} memory bytes",
+                        s.idx, s.regs, nx.regs, nx.delta.len()
+                    ),
+                ));
+            }
+        }
+    }
+
+    // ---- both ways of stepping execute the same instructions
+    let clean_session = |h: &History| -> bool {
+        !h.out_of_fuel()
+            && h.panic().is_none()
+            && h.events.iter().all(|e| match e {
+                Event::Line { res: LineRes::Eof, .. } | Event::Line { res: LineRes::Err(_), .. } => false,
+                Event::Line { who: Who::Prompt, res: LineRes::Ok(t) } => {
+                    !matches!(classify_prompt_line(t), PromptCmd::Quit) && t.ends_with('\n')
+                }
+                Event::Line { who: Who::Service, res: LineRes::Ok(t) } => t.ends_with('\n'),
+                Event::Exit(_) => false,
+                _ => true,
+            })
+    };
+    for (a, ah) in case.alts.iter().zip(alts.iter()) {
+        if a.role != "interpreted_ref" {
+            continue;
+        }
+        let (ga, gb) = match (gen, a.gen.as_ref()) {
+            (Some(x), Some(y)) => (x, y),
+            _ => continue,
+        };
+        if !clean_session(h) || !clean_session(ah) {
+            continue;
+        }
+        let trace = |h: &History, g: &GenInfo| -> Vec<(usize, String)> {
+            segments(h)
+                .1
+                .iter()
+                .filter(|s| s.idx < g.idx_line.len() && g.idx_class[s.idx] != "int3")
+                .map(|s| (g.idx_line[s.idx], g.idx_class[s.idx].clone()))
+                .collect()
+        };
+        let ta = trace(h, ga);
+        let tb = trace(ah, gb);
+        if ta != tb {
+            let p = ta.iter().zip(tb.iter()).position(|(x, y)| x != y).unwrap_or(ta.len().min(tb.len()));
+            v.push(Violation::new(
+                "C20:stepping_modes_disagree",
+                format!(
+                    "stepped by trap flag / breakpoints the run passes through {} instruction executions, stepped by -i through {}; first difference at execution {}: {:?} vs {:?}",
+                    ta.len(), tb.len(), p, ta.get(p), tb.get(p)
+                ),
+            ));
+        }
+    }
+
     // ---- transparency against the plain run of the reference variant
     for (a, ah) in case.alts.iter().zip(alts.iter()) {
         if a.role != "plain_ref" {
